@@ -38,7 +38,11 @@ def make_composer():
                 params = {'spec': sp, 'name': sp['name']}
                 if sp.get('_schema'):
                     params['_schema'] = copy.deepcopy(sp['_schema'])
-                out[sp['name']] = KProc(params)
+                if sp.get('raw_schema'):
+                    from dst.parties import RawProc
+                    out[sp['name']] = RawProc(params)
+                else:
+                    out[sp['name']] = KProc(params)
             for sp in config['steps']:
                 if sp.get('where') == 'processes':
                     out[sp['name']] = FStep({'spec': sp, 'name': sp['name']})
@@ -86,6 +90,10 @@ def _unit_spec(r, tag, avars, proc_init=False):
                       'writes': [[r.pick(avars), [r.rint(1, 99) for _ in range(2)]]],
                       'init_acc': ({free.pop(r.below(len(free))): r.rint(100, 200)}
                                    if (proc_init and free and r.chance(50)) else {})})
+    if r.chance(25):
+        # the first process hands out a schema object it keeps
+        p0 = procs[0]
+        p0['raw_schema'] = {'acc': {v: {'_default': 0, '_emit': True} for v in p0['vars']}}
     steps = []
     for i in range(r.rint(0, 2)):
         deps = [s for s in steps if r.chance(50)]
@@ -148,7 +156,17 @@ def gen_case(seed):
             tag = r.pick(['u', 'v', 'w'])
             hist.append({'op': 'merge_parts', 'into': a, 'unit': tag, 'path': r.pick(PATHS),
                          'state': {'acc': {r.pick(avars): r.rint(1, 50)}} if r.chance(50) else {}})
-        elif m < 95:
+        elif m < 93:
+            # the same step key merged again with a different dependency list: later wins
+            gens = [h for h in hist if h['op'] == 'generate' and units[h['unit']]['steps']]
+            if gens:
+                g = r.pick(gens)
+                st = r.pick(units[g['unit']]['steps'])
+                others = [x['name'] for x in units[g['unit']]['steps'] if x['name'] != st['name']]
+                newdeps = [[r.pick(others)]] if (others and r.chance(50)) else []
+                hist.append({'op': 'merge_flow', 'into': g['out'], 'path': list(g['path']),
+                             'flow': {st['name']: newdeps}})
+        elif m < 96:
             a = r.pick(names)
             hist.append({'op': 'merge_state', 'into': a, 'path': r.pick(PATHS),
                          'state': {'acc': {r.pick(avars): r.rint(1, 50)}}})
@@ -184,7 +202,11 @@ def mark(x):
         import json as _json
         pid = REC.extra.setdefault('pid', {}).setdefault(id(x), len(REC.extra['pid']))
         # the overrides in force for this very object are part of what a composite "is"
-        return '<P:%s:%d|%s>' % (x.name, pid, _json.dumps(x.schema_override, sort_keys=True, default=str))
+        try:
+            eff = _json.dumps(x.get_schema(), sort_keys=True, default=str)
+        except Exception as e:      # pragma: no cover
+            eff = 'ERR %r' % (e,)
+        return '<P:%s:%d|%s|%s>' % (x.name, pid, _json.dumps(x.schema_override, sort_keys=True, default=str), eff)
     if isinstance(x, (list, tuple)):
         return [mark(v) for v in x]
     return x
@@ -258,6 +280,9 @@ def run_history(case):
                         state=copy.deepcopy(h.get('state') or {}), path=tuple(h['path']))
                 elif h['op'] == 'merge_state':
                     real[h['into']].merge(state=copy.deepcopy(h['state']), path=tuple(h['path']))
+                elif h['op'] == 'merge_flow':
+                    real[h['into']].merge(flow={k: [tuple(d) for d in v] for k, v in h['flow'].items()},
+                                          path=tuple(h['path']))
             except Exception as e:
                 import traceback
                 exc = (i, harness.norm_exc(e), traceback.format_exc(limit=8))
@@ -295,6 +320,11 @@ def check_history(case, snaps, exc):
             into = model[h['into']]
             into = dict(into)
             into['state'] = union(into['state'], assoc_in(h['path'], h['state']))
+            model[h['into']] = into
+        elif h['op'] == 'merge_flow':
+            into = dict(model[h['into']])
+            into['flow'] = union(into['flow'], assoc_in(h['path'], {k: [list(d) for d in v]
+                                                                    for k, v in h['flow'].items()}))
             model[h['into']] = into
         elif h['op'] == 'override':
             # exactly the named process object changes (wherever it appears)
@@ -597,6 +627,9 @@ def validate(case):
     for h in case['history']:
         if h['op'] in ('generate', 'process_generate'):
             names.add(h['out'])
+        elif h['op'] == 'merge_flow':
+            if h['into'] not in names:
+                raise HarnessError('merge into a composite that does not exist yet')
         elif h['op'] == 'override':
             if h['into'] not in names:
                 raise HarnessError('override on a composite that does not exist yet')
